@@ -36,6 +36,8 @@ CORPUS = [
     "conv I:1=fm:3:1 I:2=psg:5:2 T0:17.1.0.0,2.36.2.0 T6:17.2.0.0,2.30.2.0",
     "conv T0:26.1.0.0,2.100.6.2,2.101.3.1 T100:13.7.0.0,2.40.0.0 T101:2.41.0.0",
     "conv P:-32768=pcmrate,4 P:-32767=lfo,3,5 T0:11.-32768.0.0,2.36.2.0,11.-32767.0.0",
+    "conv P:-32768= T0:11.-32768.0.0,2.36.2.0",                  # empty platform command '' (fix db86e99): input error, was tag[0] of an empty tag
+    "conv P:-32768=, T0:2.36.2.0,11.-32768.0.0",
     "conv T0:4.0.0.0,2.36.24.0,5.0.0.0,2.38.24.0,5.0.0.0,2.40.24.0,6.2.0.0",                   # D23 (fixed): [c / d / e]2
     "conv T0:4.0.0.0,2.36.2.0,2.36.2.0,5.0.0.0,1.0.0.4,5.0.0.0,2.40.2.0,6.2.0.0",              # D23 (fixed): [c c / r / e]2
 ]
